@@ -34,6 +34,8 @@ PROPS = {
         "mc": [{"module": "MC_C02.tla", "cfg": "MC_C02.cfg", "cfg_quick": "MC_C02_quick.cfg"},
                {"module": "MC_C02.tla", "cfg": "MC_C02_twin1.cfg", "expect_violation": True},
                {"module": "MC_C02.tla", "cfg": "MC_C02_twin2.cfg", "expect_violation": True, "tier": "thorough"}], "expect_ops": ["Cmp", "Pool", "Cmp1"],
+        # unbounded (all integers): the <<day, second, microsecond>> triples are exact integer arithmetic on microseconds
+        "apalache": [{"module": "TimelineLemmas.tla", "inv": "Lemmas"}],
         "rule": "one case = one pool of 6-7 time points under one mode (36-49 ordered pairs + sort/set/hash); every pool is non-trivial "
                 "(it contains respelled and 1-second-shifted members by construction)",
         "assumptions": TRUST,
